@@ -134,6 +134,15 @@ class Module:
         elif isinstance(st, ast.AnnAssign) and isinstance(st.target, ast.Name) and st.value is not None:
             self.constants[st.target.id] = st.value
             self.assign_nodes.setdefault(st.target.id, []).append(st)
+        elif isinstance(st, ast.Assign) and len(st.targets) == 1 and isinstance(st.targets[0], (ast.Tuple, ast.List)) \
+                and all(isinstance(t, ast.Name) for t in st.targets[0].elts):
+            # `a, b, c = f()` at module level: each name is the corresponding element of the value
+            for i, t in enumerate(st.targets[0].elts):
+                sub = ast.Subscript(value=st.value, slice=ast.Constant(value=i), ctx=ast.Load())
+                ast.copy_location(sub, st.value)
+                ast.fix_missing_locations(sub)
+                self.constants[t.id] = sub  # type: ignore[attr-defined]
+                self.assign_nodes.setdefault(t.id, []).append(st)  # type: ignore[attr-defined]
 
     def _index_body(self, body: List[ast.stmt], prefix: str, cls: Optional[ClassInfo]) -> None:
         for st in body:
